@@ -13,6 +13,59 @@ EPSILON = 2 ** 32 - 1
 CONSTS = {'EPSILON': EPSILON, 'ORDER': ORDER}
 
 
+# (function, primitive, argument index): the operand that must be canonical for the wrap-around correction of the packed
+# AVX2 routine to be exact (one conditional +-ORDER is enough only if one operand is < ORDER)
+PACKED_CANONICAL = [('add', 'add_no_double_overflow_64_64s_s', 1), ('sub', '_mm256_cmpgt_epi64', 0), ('neg', '_mm256_sub_epi64', 1)]
+
+
+def packed_canonical_operand(F, ck, rid='R14.5'):
+    """R14.5 (AVX2 build only): in the packed add / sub / neg on raw vectors the operand that the single wrap-around correction
+    relies on is the result of canonicalize_s (followed through the straight-line assignments of the function)."""
+    ck.rule(rid, 'AVX2 packed add / sub / neg: the operand whose canonicity the single wrap-around correction relies on is the result of canonicalize_s (AVX2 build; typestate over the straight-line body)')
+    fns = [f for f in F.fns.values() if f.crate == 'plonky2_field' and f.file.endswith('avx2_goldilocks_field.rs') and f.body is not None]
+    if not fns:
+        return      # file not compiled in this configuration
+    for fname, prim, ai in PACKED_CANONICAL:
+        cand = [f for f in fns if f.name == fname and '::' not in f.qual]
+        if len(cand) != 1:
+            ck.ob(rid, 'packed:%s' % fname, False, 'ANCHOR-MISSING free function %s in avx2_goldilocks_field.rs (%d candidates)' % (fname, len(cand)))
+            continue
+        fn = cand[0]
+        canon = {}
+
+        def is_canon(e):
+            while e.get('k') in ('Paren', 'Block') and ('e' in e):
+                if e.get('k') == 'Block' and e.get('st'):
+                    break
+                e = e['e']
+            if e.get('k') == 'Call' and parse_path(callee(e) or '')[1] == 'canonicalize_s':
+                return True
+            if e.get('k') == 'Local':
+                return canon.get(e['id'], False)
+            return False
+        verdict = None
+        loc = None
+        body = fn.body
+        while body.get('k') == 'Block' and body.get('unsafe') is not None and not body.get('st') and 'e' in body and body['e'].get('k') == 'Block':
+            body = body['e']
+        seq = list(body.get('st', [])) + ([body['e']] if 'e' in body else [])
+        for st in seq:
+            for x in walk(st):
+                if x.get('k') == 'Call' and parse_path(callee(x) or '')[1] == prim and len(x.get('a', [])) > ai and verdict is None:
+                    verdict = is_canon(x['a'][ai])
+                    loc = x.get('s')
+            if st.get('k') == 'Let' and 'i' in st and st['p'].get('k') == 'Bind':
+                canon[st['p']['id']] = is_canon(st['i'])
+            elif st.get('k') == 'Assign' and st.get('l', {}).get('k') == 'Local':
+                canon[st['l']['id']] = is_canon(st['r'])
+        if verdict is None:
+            ck.ob(rid, 'packed:%s' % fname, False, 'ANCHOR-MISSING: %s no longer calls %s' % (fname, prim), '%s:%d' % (fn.file, fn.line))
+            continue
+        ck.ob(rid, 'packed:%s' % fname, verdict, 'operand %d of %s is the result of canonicalize_s' % (ai, prim) if verdict else
+              'PACKED OPERAND NOT CANONICAL: AVX2 %s passes operand %d of %s without canonicalising it first: the routine corrects a wrap-around only once, which is exact only if that operand is < ORDER; '
+              'for two non-canonical lanes whose sum / difference wraps twice the lane differs from the scalar result by 2^32 - 1' % (fname, ai, prim), loc)
+
+
 def run(F, ck, tier):
     E = ob.Engine(F, ck)
     ck.rule('R14.2', 'unchecked preconditions are discharged at every call site (interval analysis) / constant arguments are canonical')
@@ -133,6 +186,7 @@ def run(F, ck, tier):
             ck.ob('R14.4', 'raw-compare:%s:%s' % (fn.qual, n['op']), ok, 'optimiser hint / constant assertion' if ok else
                   '%s compares the raw representation `.0` of a field element (%s): a non-canonical representative of the same value (e.g. ORDER for zero) takes the other branch' % (fn.qual, n['op']), n.get('s'))
     ck.floor('R14.4', 'raw-representation comparisons seen (hints and constant assertions)', nraw, 5)
+    packed_canonical_operand(F, ck)
     ck.decided += ['add_no_canonicalize_trashing_input precondition holds at its call sites', 'canonical constants at add/sub_canonical_u64 call sites', 'inverse_2exp threshold']
     ck.undecided += ['that any operator returns the correct residue (numeric)', 'the reduce160 magnitude bound at its 11 call sites (needs a 160-bit relational domain; not built)', 'extension-field axioms, Frobenius, batch inversion', 'packed AVX2/AVX-512 lanes', 'the assume() hints in Add/Sub']
     return 'Decides only three narrow structural clauses of C14 (interval discharge of one unchecked precondition, canonical constants, one threshold constant). The property proper - exactness on all operands - is numeric and is not decided.'
